@@ -411,7 +411,7 @@ def rule_rank(ck):
         for call, tup in _event_tuples(P, f):
             o = ck.ob('C19-D2.perrecord', f, call, call)
             lp = in_loop(call, f.node)
-            g = guards_of(call, lp) if lp is not None else None
+            g = [(t_, pl_) for t_, pl_ in guards_of(call, lp) if not (pl_ is False and 'header' in u(t_))] if lp is not None else None
             (o.ok() if lp is not None and not g else o.fail('the event is not appended once per record (%s)' % ('outside the record loop' if lp is None else 'conditional on `%s`' % u(g[0][0]))))
 
 
